@@ -33,6 +33,7 @@ import (
 
 	"github.com/RoaringBitmap/roaring/v2"
 	"github.com/blevesearch/bleve/v2/util"
+	"github.com/blevesearch/bleve/v2/util/simhook"
 	index "github.com/blevesearch/bleve_index_api"
 	segment "github.com/blevesearch/scorch_segment_api/v2"
 	bolt "go.etcd.io/bbolt"
@@ -203,6 +204,7 @@ OUTER:
 				}
 				close(ch)
 			}
+			simhook.Yield("persister", "waiters.released")
 			if err != nil {
 				atomic.StoreUint64(&s.iStats.persistEpoch, 0)
 				if err == segment.ErrClosed {
@@ -236,6 +238,7 @@ OUTER:
 			for i := range ourPersistedCallbacks {
 				ourPersistedCallbacks[i](err)
 			}
+			simhook.Yield("persister", "callbacks.fired")
 
 			atomic.StoreUint64(&s.stats.LastPersistedEpoch, ourSnapshot.epoch)
 
@@ -746,6 +749,7 @@ func prepareBoltSnapshot(snapshot *IndexSnapshot, tx *util.BoltTxImpl, path stri
 		default:
 			return nil, nil, fmt.Errorf("unknown segment type: %T", seg)
 		}
+		simhook.Yield("", "snapshot.segment")
 
 		// store current deleted bits
 		var roaringBuf bytes.Buffer
@@ -848,15 +852,18 @@ func (s *Scorch) persistSnapshotDirect(snapshot *IndexSnapshot) (err error) {
 		<-persist.applied
 	}
 
+	simhook.Yield("persister", "bolt.precommit")
 	err = tx.Commit()
 	if err != nil {
 		return err
 	}
+	simhook.Yield("persister", "bolt.committed")
 
 	err = s.rootBolt.Sync()
 	if err != nil {
 		return err
 	}
+	simhook.Yield("persister", "bolt.synced")
 
 	// allow files to become eligible for removal after commit, such
 	// as file segments from snapshots that came from the merger
@@ -865,6 +872,7 @@ func (s *Scorch) persistSnapshotDirect(snapshot *IndexSnapshot) (err error) {
 		delete(s.ineligibleForRemoval, filename)
 	}
 	s.rootLock.Unlock()
+	simhook.Yield("persister", "ineligible.cleared")
 
 	return nil
 }
@@ -1276,7 +1284,9 @@ func (s *Scorch) removeBoltFileWriterIDs(ids map[string]struct{}) error {
 }
 
 func (s *Scorch) removeOldData() {
+	simhook.Yield("persister", "purge.bolt.pre")
 	removed, err := s.removeOldBoltSnapshots()
+	simhook.Yield("persister", "purge.bolt.done")
 	if err != nil {
 		s.fireAsyncError(NewScorchError(
 			persister,
@@ -1412,6 +1422,7 @@ func (s *Scorch) removeOldBoltSnapshots() (numRemoved int, err error) {
 		return 0, nil
 	}
 
+	simhook.Yield("persister", "purge.bolt.pretx")
 	tx, err := s.rootBolt.Begin(true)
 	if err != nil {
 		return 0, err
@@ -1480,6 +1491,7 @@ func (s *Scorch) removeOldZapFiles() error {
 	if err != nil {
 		return err
 	}
+	simhook.Yield("", "purge.zap.listed")
 
 	s.rootLock.RLock()
 
@@ -1491,6 +1503,7 @@ func (s *Scorch) removeOldZapFiles() error {
 				if err != nil {
 					log.Printf("got err removing file: %s, err: %v", fname, err)
 				}
+				simhook.Yield("", "purge.zap.removed")
 			}
 		}
 	}
